@@ -53,6 +53,16 @@ def o2(W, ob):
     # where the closure is built and driven: filter(..) / collect()
     drive = [t.bb for t in f.calls() if last_seg(t.callee.best) in ('filter', 'collect') and 'RangeInclusive' in key(cx.expr_operand(t.args[0]))]
     drive += [t.bb for t in direct]
+    if direct:
+        # explicit loop: the loop itself (its `next` over the comparison range) is what every path to the rollback passes; the body runs once per frame of the range
+        drive += [t.bb for t in f.calls() if last_seg(t.callee.best) == 'next' and t.args and 'RangeInclusive' in key(cx.expr_operand(t.args[0]))]
+    # pushes onto the list of mismatched frames (explicit-loop spelling): guarded by `!checksums_consistent(frame)`; they are not requests
+    mism_pushes = []
+    for t in f.calls():
+        if last_seg(t.callee.best) == 'push' and direct:
+            g_ = G.guard(t.bb)
+            if every_disjunct_has(g_, lambda a: a[0] == 'bool' and 'checksums_consistent(' in a[1] and a[2] is False):
+                mism_pushes.append(t.bb)
     rng = [t for t in f.calls() if last_seg(t.callee.best) == 'new' and 'RangeInclusive' in (t.callee.best or '')]
     ob.require_count(len(rng), 1, 'comparison range')
     for t in rng:
@@ -84,13 +94,14 @@ def o2(W, ob):
     for s in errs:
         g = G.guard(s.bb)
         ok = every_disjunct_has(g, lambda a: a[0] == 'bool' and 'is_empty(' in a[1] and a[2] is False)
-        pushes = [t.bb for t in f.calls() if last_seg(t.callee.best) == 'push'] + adj
+        pushes = [t.bb for t in f.calls() if last_seg(t.callee.best) == 'push' and t.bb not in mism_pushes] + adj
         before = [p for p in pushes if cfg.path_avoiding([s.bb], [p]) is None and p != s.bb and s.bb in cfg.reachable_after(p)]
         ob.check(ok and not before, 'SyncTestSession::advance_frame|mismatch-before-requests', 'a non-empty mismatch list is returned before any request is issued',
                  'MismatchedChecksum: guard %s, requests issued before=%d' % (dnf_str(g)[:120], len(before)), where(f, s.line))
         fields = dict(zip(s.rv.j['fields'], s.rv.ops))
         mf = key(cx.expr_operand(fields['mismatched_frames']))
-        ob.check('collect(' in mf and 'filter(' in mf, 'SyncTestSession::advance_frame|mismatch-list', 'the error names the frames that failed the comparison',
+        listed = ('collect(' in mf and 'filter(' in mf) or (bool(mism_pushes) and len(mism_pushes) == len(direct))
+        ob.check(listed, 'SyncTestSession::advance_frame|mismatch-list', 'the error names the frames that failed the comparison',
                  'mismatched_frames := %s' % mf[:100], where(f, s.line))
     # the closure keeps a frame iff it is NOT consistent
     for c in clos:
